@@ -1,4 +1,4 @@
-package main
+package lib
 
 import (
 	"fmt"
@@ -7,35 +7,35 @@ import (
 
 // Helpers that print Go values as Coq terms (numbers always as Z, never nat, except small indices).
 
-func zs(v int64) string {
+func Zs(v int64) string {
 	if v < 0 {
 		return fmt.Sprintf("(%d)", v)
 	}
 	return fmt.Sprintf("%d", v)
 }
 
-func zlist64(l []int64) string {
+func Zlist64(l []int64) string {
 	var sb strings.Builder
 	sb.WriteString("[")
 	for i, v := range l {
 		if i > 0 {
 			sb.WriteString(";")
 		}
-		sb.WriteString(zs(v))
+		sb.WriteString(Zs(v))
 	}
 	sb.WriteString("]")
 	return sb.String()
 }
 
-func zlistInt(l []int) string {
+func ZlistInt(l []int) string {
 	m := make([]int64, len(l))
 	for i, v := range l {
 		m[i] = int64(v)
 	}
-	return zlist64(m)
+	return Zlist64(m)
 }
 
-func zbytes(b []byte) string {
+func Zbytes(b []byte) string {
 	var sb strings.Builder
 	sb.WriteString("[")
 	for i, v := range b {
@@ -48,19 +48,19 @@ func zbytes(b []byte) string {
 	return sb.String()
 }
 
-func cbool(b bool) string {
+func Cbool(b bool) string {
 	if b {
 		return "true"
 	}
 	return "false"
 }
 
-func coqList(items []string) string {
+func CoqList(items []string) string {
 	return "[" + strings.Join(items, ";\n ") + "]"
 }
 
 // coqString quotes a Go string as a Coq string literal (ASCII only; others are replaced by '?').
-func coqString(s string) string {
+func CoqString(s string) string {
 	var sb strings.Builder
 	sb.WriteString("\"")
 	for _, r := range s {
@@ -79,12 +79,12 @@ func coqString(s string) string {
 
 // casesFile wraps case terms into a Coq file that prints the ids of mismatching cases.
 // The printed markers are parsed by the driver.
-func casesFile(imports string, caseType string, defs string, terms []string, viewFn string) string {
+func CasesFile(imports string, caseType string, defs string, terms []string, viewFn string) string {
 	var sb strings.Builder
 	sb.WriteString(imports)
 	sb.WriteString("\nOpen Scope Z_scope.\n")
 	sb.WriteString(defs)
-	fmt.Fprintf(&sb, "Definition cases : list %s :=\n %s.\n", caseType, coqList(terms))
+	fmt.Fprintf(&sb, "Definition cases : list %s :=\n %s.\n", caseType, CoqList(terms))
 	sb.WriteString("Definition M := Eval vm_compute in mismatches cases.\nPrint M.\n")
 	if viewFn != "" {
 		fmt.Fprintf(&sb, "Definition V := Eval vm_compute in map (fun c => (c_id c, %s c)) (filter (fun c => existsb (Z.eqb (c_id c)) (firstn 3 M)) cases).\nPrint V.\n", viewFn)
